@@ -37,6 +37,25 @@ func jsonString(s string) string {
 	return strings.TrimRight(buf.String(), "\n")
 }
 
+// yamlString renders a YAML double-quoted scalar: the JSON form with every
+// character YAML does not allow raw (DEL, C1 controls incl. NEL, BOM, LS/PS,
+// non-characters) written as an escape.
+func yamlString(s string) string {
+	j := jsonString(s)
+	var sb strings.Builder
+	for _, r := range j {
+		switch {
+		case r == 0x7f || (r >= 0x80 && r <= 0x9f) || r == 0xfeff || r == 0x2028 || r == 0x2029 || r == 0xfffe || r == 0xffff || r == 0xfffd:
+			fmt.Fprintf(&sb, "\\u%04x", r)
+		case r > 0xffff:
+			fmt.Fprintf(&sb, "\\U%08x", r)
+		default:
+			sb.WriteRune(r)
+		}
+	}
+	return sb.String()
+}
+
 func jsonScalar(v any) string {
 	switch x := v.(type) {
 	case string:
@@ -73,7 +92,7 @@ func yamlNode(sb *strings.Builder, v any, indent int, inline bool) {
 		sort.Strings(keys)
 		for _, k := range keys {
 			sb.WriteString(pad)
-			sb.WriteString(jsonString(k))
+			sb.WriteString(yamlString(k))
 			sb.WriteString(":")
 			yamlNode(sb, x[k], indent+1, true)
 		}
@@ -103,9 +122,16 @@ func yamlNode(sb *strings.Builder, v any, indent int, inline bool) {
 		}
 	default:
 		sb.WriteString(" ")
-		sb.WriteString(jsonScalar(v))
+		sb.WriteString(yamlScalar(v))
 		sb.WriteString("\n")
 	}
+}
+
+func yamlScalar(v any) string {
+	if x, ok := v.(string); ok {
+		return yamlString(x)
+	}
+	return jsonScalar(v)
 }
 
 func isEmpty(v any) bool {
